@@ -74,7 +74,11 @@ CHECKS = {
         "database inputs (hook AnalysisHost::verif_inputs) are compared with the model's view; the answers of the long-lived host are compared "
         "with a fresh database in the same process and with another fresh one in a second process queried in reverse order. PARTIAL: salsa's "
         "memoisation is trusted and purity of the derived queries is tested, not proved - three genuine order/hash dependences are recorded "
-        "(module-name collisions, type-variable letters, inference order inside ill-typed recursion groups). The same multi-package workspace (several dependencies exporting one module name) is analysed in several fresh processes and must give the same answers; histories contain qualifier-only edits and several writes of one file in one change."),
+        "(module-name collisions, type-variable letters, inference order inside ill-typed recursion groups). The same multi-package workspace (several dependencies exporting one module name) is analysed in several fresh processes and must give the same answers; histories contain qualifier-only edits and several writes of one file in one change. "
+        "Query order, the collector's part (Props/C11Collect.lean on M-collect, tied to Collector::collect by the hook ide::verif_collect_script in C10's check): collect_is_unfolding / order_independent / "
+        "collectAll_is_unfolding - on a table without cyclic types the answer for a variable is, up to the letters of type variables, the cache-free unfolding of the table, whatever the collector was asked before; "
+        "with C10Collect.order_matters (a cyclic table where the order shows) this pins the recorded recursion-group finding to cycle cuts. A query-order family (ill-typed recursion groups without cyclic types, first question "
+        "inside another member, edit histories) checks the implementation end to end."),
   note=TB + "Modelled, not verified: salsa inputs as association lists; durabilities are not modelled.", ref="5.C11, 4.5"),
  "C17": dict(
   technique="Lean 4 proofs about the path functions (M-project) + tie through the verif hooks on generated project trees + end-to-end through the binary",
